@@ -4,6 +4,7 @@ import (
 	"fmt"
 	"math"
 	"math/cmplx"
+	"runtime"
 	"testing"
 
 	"github.com/Trisia/randomness/fft"
@@ -23,6 +24,7 @@ type c19Case struct {
 	Seed  uint64  `json:"seed,omitempty"`
 	Vals  []float64 `json:"vals,omitempty"` // explicit: re,im pairs
 	Arg   int     `json:"arg,omitempty"` // constructor argument / wrong slice length
+	Procs int     `json:"gomaxprocs,omitempty"`
 }
 
 func (c c19Case) vector() []complex128 {
@@ -67,6 +69,10 @@ func norm2(x []complex128) float64 {
 }
 
 func checkC19(c c19Case) (out Outcome, err error) {
+	if c.Procs > 0 {
+		old := runtime.GOMAXPROCS(c.Procs)
+		defer runtime.GOMAXPROCS(old)
+	}
 	switch c.Kind {
 	case "new":
 		out.Classes = []string{"new"}
@@ -260,7 +266,8 @@ func genC19(t *rapid.T) c19Case {
 		e = rapid.IntRange(13, maxExp).Draw(t, "exp")
 	}
 	N := 1 << uint(e)
-	c := c19Case{Kind: "transform", Exp: e, Input: rapid.SampledFrom([]string{"impulse", "tone", "random", "random", "pm1", "explicit"}).Draw(t, "input")}
+	c := c19Case{Kind: "transform", Exp: e, Input: rapid.SampledFrom([]string{"impulse", "tone", "random", "random", "pm1", "explicit"}).Draw(t, "input"),
+		Procs: rapid.SampledFrom([]int{0, 0, 1, 2, 3, 5, 6, 7, 12, 16}).Draw(t, "gomaxprocs")}
 	switch c.Input {
 	case "impulse", "tone":
 		c.Pos = rapid.IntRange(0, N-1).Draw(t, "pos")
@@ -304,6 +311,9 @@ func TestC19Sweep(t *testing.T) {
 	}
 	for e := 13; e <= 17; e++ {
 		cases = append(cases, c19Case{Kind: "transform", Exp: e, Input: "random", Seed: uint64(e)}, c19Case{Kind: "transform", Exp: e, Input: "impulse", Pos: 1<<uint(e) - 3})
+		for _, p := range []int{3, 5, 6, 7, 12} { // processor counts that are not powers of two
+			cases = append(cases, c19Case{Kind: "transform", Exp: e, Input: "impulse", Pos: 1<<uint(e) - 1, Procs: p}, c19Case{Kind: "transform", Exp: e, Input: "pm1", Seed: uint64(p), Procs: p})
+		}
 	}
 	enumerate(t, "C19", cases, checkC19)
 }
